@@ -76,8 +76,36 @@ class IsCloseUse:
         self.rel_tol = rel_tol
 
 
+HELPERS: Dict[str, ast.FunctionDef] = {}   # module-level single-return helpers that table lambdas may call (set by the rule)
+
+
+def _inline(call: ast.Call) -> Optional[ast.AST]:
+    """f(a, b) where f is `def f(p, q): return <expr>` -> <expr>[p:=a, q:=b]"""
+    if not isinstance(call.func, ast.Name) or call.func.id not in HELPERS or call.keywords:
+        return None
+    fn = HELPERS[call.func.id]
+    body = [s for s in fn.body if not (isinstance(s, ast.Expr) and isinstance(s.value, ast.Constant))]
+    if len(body) != 1 or not isinstance(body[0], ast.Return) or body[0].value is None:
+        return None
+    params = [a.arg for a in fn.args.args]
+    if len(params) != len(call.args):
+        return None
+    mapping = dict(zip(params, call.args))
+    import copy
+
+    class Sub(ast.NodeTransformer):
+        def visit_Name(self, n):
+            return copy.deepcopy(mapping[n.id]) if n.id in mapping else n
+
+    return Sub().visit(copy.deepcopy(body[0].value))
+
+
 def eval_cmp(e: ast.AST, x: str, y: str, point: str, uses: List[IsCloseUse]) -> bool:
     o = _ORDER[point]
+    if isinstance(e, ast.Call):
+        inl = _inline(e)
+        if inl is not None:
+            return eval_cmp(inl, x, y, point, uses)
 
     def side(n):
         if isinstance(n, ast.Name) and n.id == x:
@@ -125,7 +153,7 @@ def eval_cmp(e: ast.AST, x: str, y: str, point: str, uses: List[IsCloseUse]) -> 
             kw = {k.arg: k.value for k in e.keywords}
             rel = kw.get("rel_tol", e.args[2] if len(e.args) > 2 else None)
             ab = kw.get("abs_tol", e.args[3] if len(e.args) > 3 else None)
-            if not any(u.call is e for u in uses):
+            if not any(ast.dump(u.call) == ast.dump(e) for u in uses):
                 uses.append(IsCloseUse(e, l == "y", ab, rel))
             return abs(o) <= 1
         raise Uninterpretable(f"call not interpreted: {ast.unparse(e)}")
